@@ -324,6 +324,9 @@ class SBytes:
             return SStr(items, [1] * len(items))
         if self.is_concrete():
             return bytes(self.b).decode(enc, errors)
+        if e in ("utf-8", "utf8") and errors in ("strict", "replace"):
+            from .urlmodel import utf8_decode          # CPython's decoder restated over symbolic bytes (checked by its selfcheck)
+            return utf8_decode(list(self.b), errors)
         raise Unsupported("decode(%s) of symbolic bytes" % enc)
 
     def __repr__(self):
@@ -523,9 +526,12 @@ class SStr:
             raise ValueError("substring not found")
         return i
 
-    def rfind(self, sub):
+    def rfind(self, sub, start=0, end=None):
         sub = SStr.lift(sub)
-        for i in range(len(self.c) - len(sub), -1, -1):
+        n = len(self.c)
+        end = n if end is None else (max(0, n + end) if end < 0 else min(end, n))
+        start = max(0, n + start) if start < 0 else start
+        for i in range(end - len(sub), start - 1, -1):
             if self._match_at(i, sub):
                 return i
         return -1
